@@ -19,7 +19,26 @@ impl PanicInfo {
     pub fn signature(&self) -> String {
         let mut msg: String = String::new();
         let mut last_hash = false;
-        for ch in self.message.chars().take(160) {
+        // char literals and quoted strings carry input-specific content
+        let mut cleaned = String::new();
+        let mut in_sq = false;
+        let mut in_dq = false;
+        for ch in self.message.chars().take(200) {
+            match ch {
+                '\'' if !in_dq => {
+                    in_sq = !in_sq;
+                    cleaned.push('\'');
+                }
+                '"' if !in_sq => {
+                    in_dq = !in_dq;
+                    cleaned.push('"');
+                }
+                '`' => cleaned.push('`'),
+                _ if in_sq || in_dq => {}
+                _ => cleaned.push(ch),
+            }
+        }
+        for ch in cleaned.chars().take(110) {
             if ch.is_ascii_digit() {
                 if !last_hash {
                     msg.push('#');
@@ -53,6 +72,31 @@ impl PanicInfo {
         }
         let file = self.file.rsplit("/rust/").next().unwrap_or(&self.file).to_string();
         format!("panic:{}:{}", file, out.trim())
+    }
+    /// medium-grained identity used for adversarial-input properties: source file + kind of panic
+    pub fn coarse_signature(&self) -> String {
+        let file = self.file.rsplit("/rust/").next().unwrap_or(&self.file).to_string();
+        let m = &self.message;
+        let ident = |s: &str| -> String { s.chars().take_while(|c| c.is_ascii_alphanumeric() || *c == '_').collect() };
+        let kind = if m.starts_with("called `Option::unwrap()`") {
+            "unwrap-none".to_string()
+        } else if let Some(rest) = m.strip_prefix("called `Result::unwrap()` on an `Err` value: ") {
+            format!("unwrap-err-{}", ident(rest))
+        } else if m.starts_with("index out of bounds") {
+            "index-oob".to_string()
+        } else if m.contains("out of range for slice") || m.contains("slice index starts at") || m.contains("is out of bounds of") || m.contains("is not a char boundary") {
+            "slice-range".to_string()
+        } else if m.starts_with("assertion") {
+            "assert".to_string()
+        } else if m.contains("overflow") {
+            "overflow".to_string()
+        } else if m.contains("divisor of zero") || m.contains("divide by zero") {
+            "div-zero".to_string()
+        } else {
+            let w: Vec<String> = m.split_whitespace().take(3).map(|x| ident(x)).filter(|x| !x.is_empty()).collect();
+            format!("msg-{}", w.join("-"))
+        };
+        format!("panic-in:{}:{}", file, kind)
     }
     pub fn is_harness(&self) -> bool {
         // the simulator is built from /verif/sim, so its own files are relative "src/..."
